@@ -398,7 +398,43 @@ func (x *X) loopIndex(s *State, h *ssa.BasicBlock) Val {
 			}
 		}
 	}
-	x.fail("idx used in a loop that is neither a slice range nor a map range")
+	// a counting loop written by hand (for i := 0; ...; i++): the one integer phi of the header that starts at 0 and is
+	// advanced by exactly one on every back edge counts the completed iterations just as the hidden range index does, so
+	// an invariant written for `for i, v := range xs` survives the rewrite into an index loop
+	var counter *ssa.Phi
+	for _, in := range h.Instrs {
+		p, ok := in.(*ssa.Phi)
+		if !ok {
+			continue
+		}
+		if b, isB := p.Type().Underlying().(*types.Basic); !isB || b.Info()&types.IsInteger == 0 {
+			continue
+		}
+		zero, step, other := 0, 0, 0
+		for _, e := range p.Edges {
+			if c, isC := e.(*ssa.Const); isC && c.Value != nil && c.Int64() == 0 {
+				zero++
+				continue
+			}
+			if bo, isBO := e.(*ssa.BinOp); isBO && bo.Op == token.ADD && bo.X == ssa.Value(p) {
+				if c, isC := bo.Y.(*ssa.Const); isC && c.Value != nil && c.Int64() == 1 {
+					step++
+					continue
+				}
+			}
+			other++
+		}
+		if zero == 1 && step >= 1 && other == 0 {
+			if counter != nil {
+				x.fail("idx used in a loop with two counters")
+			}
+			counter = p
+		}
+	}
+	if counter != nil {
+		return intV(tm(fr.env[counter]))
+	}
+	x.fail("idx used in a loop that is neither a slice range, a map range nor a loop with one counter from 0 in steps of 1")
 	return nil
 }
 
@@ -717,6 +753,10 @@ func (ev *Ev) equal(l, r Val) string {
 				return "true"
 			}
 			return x.opqNil(ev.cur, b)
+		case Sc:
+			if b.Sort == "Ref" {
+				return sEq(b.T, "nilref")
+			}
 		}
 		ev.errf("comparison of %T with nil", r)
 	}
@@ -875,6 +915,23 @@ func (ev *Ev) call(n *ast.CallExpr) Val {
 			}
 		}
 		ev.errf("len of %T", arg(0))
+	case "listeners":
+		// the listener list behind a FundraisingHooks value whose dynamic type is types.MultiFundraisingHooks
+		need(1)
+		v := arg(0)
+		if p, ok := v.(Ptr); ok {
+			v = ev.deref(p)
+		}
+		if iv, ok := v.(Iface); ok && iv.Dyn != nil && strings.HasSuffix(iv.Dyn.String(), ".MultiFundraisingHooks") {
+			if sl, isSl := iv.V.(Sl); isSl {
+				return ev.x.flat(ev.cur, sl)
+			}
+		}
+		if sc, ok := v.(Sc); ok && sc.Sort == "Ref" {
+			// an unknown listener: nothing is known about a list behind it (uninterpreted)
+			return Sl{0, sApp("reflistN", sc.T), Sc{T: sApp("reflist", sc.T), Sort: arrSort("Int", "Ref")}}
+		}
+		ev.errf("listeners of %T (not a MultiFundraisingHooks value)", v)
 	case "has":
 		need(2)
 		k := tm(arg(1))
